@@ -18,6 +18,14 @@ class AnchorMissing(AnalysisError):
     pass
 
 
+class ModelViolation(Exception):
+    """raised by a shared model when building it already shows that the property is broken (for example: a helper the packing
+    loops call raises for an argument they pass).  The framework records it as a violation of the rule that asked for the model."""
+    def __init__(self, site, construct, why, witness=None):
+        Exception.__init__(self, construct)
+        self.site, self.construct, self.why, self.witness = site, construct, why, witness
+
+
 class Undecided(AnalysisError):
     pass
 
